@@ -189,6 +189,9 @@ type Replica struct {
 	// Stream client for receiving WAL entries
 	streamClient replication_proto.WALReplicationService_StreamWALClient
 
+	// Receiving side of streamClient (see streamReceiver)
+	receiver *streamReceiver
+
 	// Statistics for the replica
 	stats *ReplicaStats
 
@@ -216,6 +219,56 @@ type Replica struct {
 
 	// Connector for connecting to primary (for testing)
 	connector PrimaryConnector
+}
+
+// receiveResult is the outcome of one Recv on the WAL stream
+type receiveResult struct {
+	response *replication_proto.WALStreamResponse
+	err      error
+}
+
+// streamReceiver owns the receiving side of one WAL stream. gRPC allows only
+// one Recv at a time on a stream, and a response taken by a Recv whose caller
+// has stopped waiting for it is lost. So a single goroutine per stream does
+// the receiving and the state machine collects the results, in order,
+// whenever it gets round to it.
+type streamReceiver struct {
+	results chan receiveResult
+	cancel  context.CancelFunc
+}
+
+// startReceiver starts receiving on a stream opened with ctx; cancel ends the
+// stream and the goroutine.
+func startReceiver(ctx context.Context, cancel context.CancelFunc,
+	stream replication_proto.WALReplicationService_StreamWALClient) *streamReceiver {
+	receiver := &streamReceiver{
+		results: make(chan receiveResult),
+		cancel:  cancel,
+	}
+	go func() {
+		for {
+			response, err := stream.Recv()
+			select {
+			case receiver.results <- receiveResult{response, err}:
+			case <-ctx.Done():
+				return
+			}
+			if err != nil {
+				return
+			}
+		}
+	}()
+	return receiver
+}
+
+// dropStream abandons the current stream, if any: the stream is cancelled, so
+// that the primary ends the session that feeds it, and its receiver stops.
+func (r *Replica) dropStream() {
+	if r.receiver != nil {
+		r.receiver.cancel()
+		r.receiver = nil
+	}
+	r.streamClient = nil
 }
 
 // NewReplica creates a new replica instance
@@ -309,7 +362,7 @@ func (r *Replica) Stop() error {
 		r.conn = nil
 	}
 	r.client = nil
-	r.streamClient = nil
+	r.dropStream()
 
 	// Close compressor
 	if r.compressor != nil {
@@ -414,11 +467,14 @@ func (r *Replica) handleStreamingState() error {
 		}
 
 		// Start streaming from the primary
-		var err error
-		r.streamClient, err = r.client.StreamWAL(r.ctx, request)
+		streamCtx, cancelStream := context.WithCancel(r.ctx)
+		stream, err := r.client.StreamWAL(streamCtx, request)
 		if err != nil {
+			cancelStream()
 			return fmt.Errorf("failed to start WAL stream: %w", err)
 		}
+		r.streamClient = stream
+		r.receiver = startReceiver(streamCtx, cancelStream, stream)
 
 		// Get the session ID from the response header metadata
 		md, err := r.streamClient.Header()
@@ -453,42 +509,10 @@ func (r *Replica) handleStreamingState() error {
 		fmt.Printf("Waiting to receive next batch...\n")
 
 		// Make sure we have a valid stream client
-		if r.streamClient == nil {
+		if r.streamClient == nil || r.receiver == nil {
 			return fmt.Errorf("stream client is nil")
 		}
-
-		// Set up a channel to receive the result
-		type receiveResult struct {
-			response *replication_proto.WALStreamResponse
-			err      error
-		}
-		resultCh := make(chan receiveResult, 1)
-
-		go func() {
-			fmt.Printf("Starting Recv() call to wait for entries from primary\n")
-			response, err := r.streamClient.Recv()
-			if err != nil {
-				fmt.Printf("Error in Recv() call: %v\n", err)
-			} else if response != nil {
-				numEntries := len(response.Entries)
-				fmt.Printf("Successfully received a response with %d entries\n", numEntries)
-
-				// IMPORTANT DEBUG: If we received entries but stay in WAITING_FOR_DATA,
-				// this indicates a serious state machine issue
-				if numEntries > 0 {
-					fmt.Printf("CRITICAL: Received %d entries that need processing!\n", numEntries)
-					for i, entry := range response.Entries {
-						if i < 3 { // Only log a few entries
-							fmt.Printf("Entry %d: seq=%d, fragment=%s, payload_size=%d\n",
-								i, entry.SequenceNumber, entry.FragmentType, len(entry.Payload))
-						}
-					}
-				}
-			} else {
-				fmt.Printf("Received nil response without error\n")
-			}
-			resultCh <- receiveResult{response, err}
-		}()
+		resultCh := r.receiver.results
 
 		// Wait for either timeout or result
 		var response *replication_proto.WALStreamResponse
@@ -505,8 +529,14 @@ func (r *Replica) handleStreamingState() error {
 		}
 
 		if err != nil {
+			// Nothing more will arrive on this stream
+			r.mu.Lock()
+			r.dropStream()
+			r.mu.Unlock()
+
 			if err == io.EOF {
-				// Stream ended normally
+				// Stream ended normally; a new one is opened from the
+				// streaming state
 				fmt.Printf("Stream ended with EOF\n")
 				return r.stateTracker.SetState(StateWaitingForData)
 			}
@@ -556,8 +586,9 @@ func (r *Replica) handleStreamingState() error {
 
 		fmt.Printf("Successfully processed entries directly\n")
 
-		// Return to streaming state to continue receiving
-		return r.stateTracker.SetState(StateStreamingEntries)
+		// Stay in the streaming state to continue receiving (there is no
+		// transition from the state to itself)
+		return nil
 	}
 }
 
@@ -694,7 +725,7 @@ func (r *Replica) handleAcknowledgingState() error {
 	// Reset the streamClient to ensure the next fetch starts from our last acknowledged position
 	// This is important to fix the issue where the same entries were being fetched repeatedly
 	r.mu.Lock()
-	r.streamClient = nil
+	r.dropStream()
 	fmt.Printf("Reset stream client after acknowledgment. Next expected sequence will be %d\n",
 		r.batchApplier.GetExpectedNext())
 	r.mu.Unlock()
@@ -708,31 +739,29 @@ func (r *Replica) handleWaitingForDataState() error {
 	// that need to be processed
 
 	// Check if we have any pending entries from our stream client
-	if r.streamClient != nil {
+	if r.streamClient != nil && r.receiver != nil {
 		// Use a non-blocking check to see if data is available
 		receiveCtx, cancel := context.WithTimeout(r.ctx, 50*time.Millisecond)
 		defer cancel()
 
-		// Use a separate goroutine to receive data to avoid blocking
-		done := make(chan struct{})
 		var response *replication_proto.WALStreamResponse
 		var err error
-
-		go func() {
-			fmt.Printf("Quick check for available entries from primary\n")
-			response, err = r.streamClient.Recv()
-			close(done)
-		}()
 
 		// Wait for either the receive to complete or the timeout
 		select {
 		case <-receiveCtx.Done():
 			// No data immediately available, continue waiting
 			fmt.Printf("No data immediately available in WAITING_FOR_DATA state\n")
-		case <-done:
+		case result := <-r.receiver.results:
 			// We got some data!
+			response, err = result.response, result.err
 			if err != nil {
+				// The stream is over: a new one is opened from the streaming state
 				fmt.Printf("Error checking for entries in WAITING_FOR_DATA: %v\n", err)
+				r.mu.Lock()
+				r.dropStream()
+				r.mu.Unlock()
+				return r.stateTracker.SetState(StateStreamingEntries)
 			} else if response != nil && len(response.Entries) > 0 {
 				fmt.Printf("Found %d entries in WAITING_FOR_DATA state - processing immediately\n",
 					len(response.Entries))
@@ -792,7 +821,7 @@ func (r *Replica) handleErrorState(backoff *time.Timer) error {
 			r.conn = nil
 		}
 		r.client = nil
-		r.streamClient = nil // Also reset the stream client
+		r.dropStream() // Also reset the stream client
 		r.mu.Unlock()
 
 		// Transition back to connecting state
